@@ -23,7 +23,13 @@ MANIFEST = dict(
           "and numeric coefficients. str(u) and repr(u) are CONCRETE strings pushed through the real parser; what the solver decides "
           "is that the re-read unit's scale (a term over the registry's symbolic scales, produced by the real _get_unit_data_from_expr/"
           "_lookup_unit_symbol) equals the original's for ALL positive scales, and likewise the offset; dimensions, expression identity "
-          "and hash are concrete comparisons. Term shapes, names, exponents, coefficients and spellings are enumerated. NOT covered "
+          "and hash are concrete comparisons. Term shapes, names, exponents, coefficients and spellings are enumerated. The re-reading is also "
+          "done ACROSS A HISTORY run inside one path: the unit is made, printed and hashed (by the caller, as dict key / set member, or inside "
+          "unyt's lru caches through q*q, q.to(u), get_base_equivalent), then its registry (fresh, copy.copy, deepcopy, or the process-global "
+          "default one) goes through one to three of add / add offset+prefixable / define_unit / modify / modify to the same value / modify "
+          "by a quantity / remove / remove+re-add / first lookup of prefixed names / edit of a sibling copy / early printing, with symbolic new "
+          "values on symbols the unit does not mention, and only then the text (taken before and after) is read again from a cold and a warm "
+          "unit-object cache: equal unit for all scales, identical expression, hash(v) == hash(u) now, one set element, mutual dict hits. NOT covered "
           "(not applicable to this technique): totality of the parser on arbitrary strings and rejection of malformed input."),
     design="DESIGN.md section 4 C20",
     technique="symbolic execution of the real Python code over z3 real terms (strings concrete); SMT obligations per path; counterexample replay")
@@ -34,20 +40,36 @@ EXPLANATION = (
     "must parse; z3 decides per path pc & not(scale(v) close to scale(u) and offset(v) close to offset(u)) for all symbolic scales/"
     "offsets; dimension vectors, u == v, and - when the expression has no numeric coefficient - identical expression and hash are "
     "checked concretely; printing is a fixed point (str(v) == str(u)). Spelling groups: every member parses to a unit equal to the "
-    "first, for all scales."
+    "first, for all scales. Histories (C20/hist/<registry configuration>/<history>/<term>): one unit object per hashing route is built by the "
+    "real operators, printed and hashed; UnitRegistry.add/modify/remove, define_unit, copy.copy and the prefixed-symbol lookup then run for real "
+    "with z3 reals as new scales/offsets on symbols the unit does not mention (z3 decides that every edited symbol reads back with the "
+    "harness' account of its scale, i.e. the history took effect); afterwards the texts printed before and after the history are re-read "
+    "(cold and warm unit-object cache, text and utf-8 bytes) and compared with every one of the objects: scale/offset by z3 for all scales, "
+    "dimension, equality both ways, identical expression, equal hash at that moment, set and dict behaviour, hash stability, unchanged print. "
+    "The special-unit and spelling cases repeat their whole table after an add+modify+remove of unrelated symbols (units made and hashed before, "
+    "texts read after). Unit caches are cleared by the runner only at the start of a path, so every history is one uninterrupted life of the "
+    "registry and its units."
 )
 BOUNDS = {
     "quick": "atoms {xa, xb, kxa, %, ohm-sign, angstrom-sign, micro-m}; all 196 terms of depth <= 1, 200 seeded of depth 2, 200 of depth 3 (root degree <= 36), each "
              "printed with str and repr and re-read from text and utf-8 bytes; 316 terms also written as strings in 4 surface syntaxes and compared with the "
              "arithmetic result; 120 simplify() terms over table/percent atoms + one symbolic atom; 138 simplify() terms over 22 same-dimension table pairs of non-integer and whole ratio (a/b, b/a, a/b*c, a**2/b, c/(a/b), a/b*ohm and compounds); 9 coefficients x 12 terms; 10 groups of offset / "
-             "logarithmic / temperature-difference / angle / bare-1 units (78 units); 42 spelling groups (~205 spellings)",
+             "logarithmic / temperature-difference / angle / bare-1 units (78 units); 42 spelling groups (~205 spellings), both tables once more after add+modify+remove of "
+             "unrelated symbols; histories: 31 terms (17 with oracle scale incl. simplify()/coefficient terms, 14 offset/log/angle/bare) x all 11 one-step histories in a fresh "
+             "registry, 17 two-step (all 9 ordered pairs of add/modify/remove + 8 mixed) and 12 three-step histories (all 6 orders of add, modify, remove + 6 mixed) x 2 rotating terms, "
+             "and all 40 histories x 1 rotating term in each of copy.copy(registry), deepcopy(registry) and the default registry (519 cases); in each case 7 hashing routes "
+             "(+ the unit read from its own text) x str/repr x text printed before/after x cold/warm unit-object cache x text/bytes",
     "thorough": "same atoms; 1500 seeded terms of depth 2, 1500 of depth 3; 1396 terms in 4 surface syntaxes; 600 simplify() terms; 9 coefficients x 60 terms; special and "
-                "spelling tables as in quick; every table symbol and every SI-prefixed prefixable symbol alone and to the powers -1, 2, 1/2 over a symbolic xc (ground scales)",
+                "spelling tables as in quick; every table symbol and every SI-prefixed prefixable symbol alone and to the powers -1, 2, 1/2 over a symbolic xc (ground scales); "
+                "histories as in quick with 8 rotating terms per multi-step history in the fresh registry and 4 per history in the three other registry configurations (1053 cases)",
 }
 OUTSIDE = ("NOT APPLICABLE and not claimed: totality (any string parses or raises UnitParseError, nothing else is evaluated) and malformed-input fuzzing. "
            "Also outside: strings are concrete (only scales/offsets are solver variables); float exponents that are not small rationals in disguise "
            "('xa**0.6666666666666666' is read as the exact decimal, unlike Unit.__pow__); the compatibility code points OHM SIGN U+2126 / ANGSTROM SIGN U+212B "
-           "(not names of the table); persistence layers themselves (C11); a second registry (C13); rounding (A1)")
+           "(not names of the table); persistence layers themselves (C11); a second registry (C13); rounding (A1). Histories: edits of a symbol the unit itself mentions "
+           "(the old object then legitimately differs from what its text now denotes: C12), histories longer than three steps, units restored by pickle/JSON/HDF5 (the "
+           "z3-valued table cannot be pickled: C11), hash equality between different registries or between a hash taken before an edit and one taken after it (the registry "
+           "digest is part of the hash by design; only hashes asked at the same moment are compared)")
 ASSUMPTIONS = ["MonoReal (harness/unitterms_common.py): a positive scale symbol is introduced as t**N; the exponent arithmetic that keeps products, "
                "quotients and rational powers of such scales in exact monomial form, and the reduction of closeness/isclose of two monomials over the "
                "same power product to their rational coefficients, are harness code",
@@ -87,24 +109,36 @@ class _Env(dict):
         return u
 
 
-def make_env(ctx, N=1, offset_unit=False, extra=()):
+def make_env(ctx, N=1, offset_unit=False, extra=(), base=None, copied=False, spare=False):
+    """the registry of a case: the default table plus symbolic-scale atoms xa (prefixable), xb, xc [, the offset unit xt] [, the spare
+    symbols xd, xe that histories edit]. base: put the rows into this registry (the process-global default one) instead of a fresh
+    one; copied: hand out copy.copy() of the registry the rows were put into."""
     D = ctx.mods["unyt"].dimensions
-    reg = ctx.registry([])
+    reg = ctx.registry([]) if base is None else base
     sa, sb, sc = positive_scale(ctx, "ta", N), positive_scale(ctx, "tb", N), positive_scale(ctx, "tc", N)
     ctx.add_row(reg, "xa", D.length, sa, 0.0, prefixable=True)
     ctx.add_row(reg, "xb", D.mass, sb, 0.0)
     ctx.add_row(reg, "xc", D.time, sc, 0.0)
     scale_of = {"xa": sa, "xb": sb, "xc": sc}
     dimvec_of = {"xa": {L_: F(1)}, "xb": {M_: F(1)}, "xc": {T_: F(1)}}
+    if spare:
+        sd, se = positive_scale(ctx, "td", N), positive_scale(ctx, "te", N)
+        ctx.add_row(reg, "xd", D.length, sd, 0.0)
+        ctx.add_row(reg, "xe", D.mass, se, 0.0)
+        scale_of["xd"], dimvec_of["xd"] = sd, {L_: F(1)}
+        scale_of["xe"], dimvec_of["xe"] = se, {M_: F(1)}
     for n, (s, d) in TAB.items():
         scale_of[n], dimvec_of[n] = s, d
-    for n in extra:
-        if n not in scale_of and n != "kxa":
-            scale_of[n], dimvec_of[n] = table_unit(n)
     if offset_unit:
         st, ot = positive_scale(ctx, "tt", 1), ctx.real("ot")
         ctx.add_row(reg, "xt", D.temperature, st, ot, prefixable=True)
         scale_of["xt"], dimvec_of["xt"] = st, {TH_: F(1)}
+    for n in extra:
+        if n not in scale_of and n not in ("kxa", "kxt"):
+            scale_of[n], dimvec_of[n] = table_unit(n)
+    if copied:
+        import copy
+        reg = copy.deepcopy(reg) if copied == "deep" else copy.copy(reg)
     return reg, _Env(ctx.mods["unyt"].Unit, reg), scale_of, dimvec_of
 
 
@@ -257,8 +291,9 @@ def special_terms():
 
 def make_special_case(kind, terms):
     def h(ctx):
-        reg, env, scale_of, dimvec_of = make_env(ctx, N=2, offset_unit=True)
+        reg, env, scale_of, dimvec_of = make_env(ctx, N=2, offset_unit=True, spare=True)
         n_printed = 0
+        built = []
         for t in terms:
             r = call(lambda: build(t, env, ctx.mods, reg))
             if r[0] != "ok":
@@ -266,7 +301,12 @@ def make_special_case(kind, terms):
                 continue
             n_printed += 1
             roundtrip(ctx, f"round trip ({kind})", r[1], reg, bare_identity=(kind == "bare-one"), observe=False)
+            built.append(r[1])
         ctx.observe("units printed", n_printed)
+        # the same units (hashed and printed above) once more after the registry has learnt, changed and forgotten unrelated symbols
+        registry_edit(ctx, reg)
+        for u in built:
+            roundtrip(ctx, f"round trip ({kind}) after a registry edit,", u, reg, observe=False)
     return Case(f"C20/special/{kind}", h, group="special")
 
 
@@ -319,25 +359,39 @@ SPELL = [
 ]
 
 
+def registry_edit(ctx, reg, N=2):
+    """add + modify + remove of symbols no unit under test mentions, through the registry's own methods, with symbolic values"""
+    D = ctx.mods["unyt"].dimensions
+    reg.add("xq", positive_scale(ctx, "tq", N), D.force)
+    reg.modify("xd", positive_scale(ctx, "tm", N))
+    reg.remove("xe")
+
+
 def make_spell_case(i, identical, group):
     def h(ctx):
-        reg, env, scale_of, dimvec_of = make_env(ctx, N=6, offset_unit=True)
+        reg, env, scale_of, dimvec_of = make_env(ctx, N=6, offset_unit=True, spare=True)
         Unit = ctx.mods["unyt"].Unit
         ref = Unit(group[0], registry=reg)
-        for s in group[1:]:
-            reg._unit_object_cache.clear()
-            r = call(lambda: Unit(s, registry=reg))
-            ctx.require("spelling: parses", r[0] == "ok", spelling=s, got=r[1])
-            if r[0] != "ok":
-                continue
-            v = r[1]
-            ctx.require("spelling: equal unit (dimension, offset, scale for all scales)",
-                        And(dimvec(v.dimensions) == dimvec(ref.dimensions), close(v.base_offset, ref.base_offset), close(v.base_value, ref.base_value),
-                            bool(v == ref)), spelling=s, reference=group[0])
-            if identical:
-                ctx.require("spelling: identical expression and hash", And(v.expr == ref.expr, hash(v) == hash(ref)), spelling=s, reference=group[0], got=repr(v))
-            ctx.observe(s, v.base_value)
-        roundtrip(ctx, "spelling reference round trip", ref, reg, observe=False)
+        hash(ref)
+        for when in ("", "after a registry edit, "):
+            if when:
+                # the reference unit was made (and hashed) before the edit, the spellings are read after it
+                registry_edit(ctx, reg, 6)
+            for s in group[1:]:
+                reg._unit_object_cache.clear()
+                r = call(lambda: Unit(s, registry=reg))
+                ctx.require(f"{when}spelling: parses", r[0] == "ok", spelling=s, got=r[1])
+                if r[0] != "ok":
+                    continue
+                v = r[1]
+                ctx.require(f"{when}spelling: equal unit (dimension, offset, scale for all scales)",
+                            And(dimvec(v.dimensions) == dimvec(ref.dimensions), close(v.base_offset, ref.base_offset), close(v.base_value, ref.base_value),
+                                bool(v == ref)), spelling=s, reference=group[0])
+                if identical:
+                    ctx.require(f"{when}spelling: identical expression and hash", And(v.expr == ref.expr, hash(v) == hash(ref)), spelling=s, reference=group[0], got=repr(v))
+                if not when:
+                    ctx.observe(s, v.base_value)
+            roundtrip(ctx, f"{when}spelling reference round trip", ref, reg, observe=False)
     name = group[0].replace("/", ":").replace("*", ".").replace(" ", "_") or "empty"
     return Case(f"C20/spell/{i:02d}-{name}", h, group="spell")
 
@@ -361,6 +415,280 @@ def make_table_case(names, idx):
     return Case(f"C20/table/{idx:03d}-{names[0]}", h, group="table")
 
 
+# ----------------------------------------------------------------------------- histories between the first hash / first print and the re-reading
+#
+# The clause "str() and repr() parse back to ... the identical expression and hash" is quantified over every unit obtainable from
+# strings or arithmetic - whatever happened to the unit and to its registry between the moment the unit was made (hashed, printed,
+# used in a conversion) and the moment the text is read again. The families above re-read at once; this one enumerates that history.
+
+# how the unit came to be hashed BEFORE the history: by the caller, or inside unyt's own lru caches (keyed on units)
+ROUTES = ["hash()", "dict key", "set member", "lru of q*q", "lru of q.to(u)", "lru of get_base_equivalent", "not hashed"]
+
+# one step of a history. `edits the table` = the registry's contents (hence its system id, hence every hash) change
+EVENTS = ["add", "add-offset-prefixable", "define", "modify", "modify-same", "modify-quantity", "remove", "remove-readd", "prefixed-lookup",
+          "sibling-copy-edit", "early-print"]
+H1 = [(e,) for e in EVENTS]
+H2 = [(a, b) for a in ("add", "modify", "remove") for b in ("add", "modify", "remove")] + [
+    ("define", "remove"), ("early-print", "add"), ("prefixed-lookup", "modify"), ("add", "early-print"), ("sibling-copy-edit", "add"), ("remove-readd", "modify-same"),
+    ("add-offset-prefixable", "prefixed-lookup"), ("modify-quantity", "define")]
+H3 = [("add", "modify", "remove"), ("add", "remove", "modify"), ("modify", "add", "remove"), ("modify", "remove", "add"), ("remove", "add", "modify"),
+      ("remove", "modify", "add"), ("modify", "modify", "add"), ("add", "add", "add"), ("define", "early-print", "remove"), ("remove-readd", "add", "modify-same"),
+      ("prefixed-lookup", "add-offset-prefixable", "prefixed-lookup"), ("early-print", "modify-quantity", "sibling-copy-edit")]
+CONFIGS = ["custom", "copied", "deepcopied", "default"]           # the registry the unit lives in
+EDIT_NAMES = ["xd", "xe", "xq", "xr", "xs", "xv", "xw"]
+
+HIST_TERMS = [A("xa"), A("kxa"), A("%"), A("Ω"), A("μm"), M(A("xa"), A("xb")), Dv(A("xa"), P(A("xc"), 2)), P(M(A("xa"), A("xb")), F(1, 2)),
+              Dv(P(A("kxa"), 2), P(A("xb"), F(3, 2))), Dv(A("g"), P(A("cm"), 3)), M(P(A("Hz"), F(1, 2)), A("μm")), M(A("xa"), A("%")), Dv(A("xb"), M(A("Å"), A("xc"))),
+              S(Dv(P(A("m"), 2), A("cm"))), S(M(Dv(A("mile"), A("km")), A("xb"))), K(2.5, A("xa")), K(1e-7, Dv(A("xa"), A("xb")))]
+# no oracle scale for these (offset / logarithmic / angle / bare units): compared with the unit itself
+HIST_SPECIAL = [A("xt"), A("kxt"), A("degC"), A("degF"), A("mdegC"), A("delta_degC"), Dv(A("xa"), A("K")), A("dB"), A("degree"), Dv(A("degree"), A("xc")),
+                A("lat"), A("dimensionless"), A("1"), Dv(A("xa"), A("xa"))]
+
+
+def first_hash(ctx, route, u, reg):
+    if route.startswith("hash()"):
+        hash(u)
+    elif route == "dict key":
+        return {u: route}
+    elif route == "set member":
+        return {u}
+    elif route == "lru of q*q":           # array.py _multiply_units, cached on (registry ids, unit, unit)
+        q = ctx.quantity(ctx.real("pay", pos=True), u, reg)
+        call(lambda: q * q)
+    elif route == "lru of q.to(u)":       # unit_object.py _check_em_conversion(unit, to_unit, registry=...)
+        q = ctx.quantity(ctx.real("pay", pos=True), u, reg)
+        call(lambda: q.to(u))
+    elif route == "lru of get_base_equivalent":
+        call(lambda: u.get_base_equivalent("mks"))
+    return None
+
+
+class _History:
+    """runs the events through the registry's public interface (add / modify / remove / define_unit / copy) with symbolic values and
+    keeps the harness' own account of what the edited symbols must be afterwards"""
+
+    def __init__(self, ctx, reg, config, scale_of, used, N):
+        self.ctx, self.reg, self.config, self.scale_of, self.N = ctx, reg, config, scale_of, N
+        self.spare = [n for n in ("xd", "xe") if n not in used]     # symbols the unit under test does not mention
+        self.fresh = [n for n in ("xq", "xr", "xs", "xv", "xw")]
+        self.expect = {}                                               # name -> oracle scale | None (gone)
+        self.k = 0
+
+    def sym(self, what):
+        self.k += 1
+        return positive_scale(self.ctx, f"t{what}{self.k}", self.N)
+
+    def run(self, ev, units):
+        ctx, reg = self.ctx, self.reg
+        mods = ctx.mods
+        D, Unit = mods["unyt"].dimensions, mods["unyt"].Unit
+        refused = self.config == "default" and ev in ("modify", "modify-same", "modify-quantity", "remove", "remove-readd")
+        if refused:
+            # the default registry refuses to be modified: the refusal is the event (nothing may change)
+            r = call(lambda: reg.modify(self.spare[0], 2.0) if ev.startswith("modify") else reg.remove(self.spare[0]))
+            ctx.require("history: the default registry refuses modify/remove with TypeError", r[0] == "raise" and type(r[1]).__name__ == "TypeError", event=ev, got=r[1])
+            return
+        if ev == "add":
+            n, s = self.fresh.pop(0), self.sym("q")
+            reg.add(n, s, D.force)
+            self.expect[n] = s
+            self.spare.append(n)
+        elif ev == "add-offset-prefixable":
+            n, s = self.fresh.pop(0), self.sym("q")
+            o = ctx.real(f"oq{self.k}")
+            reg.add(n, s, D.temperature, offset=o, prefixable=True)
+            self.expect[n] = s
+            self.spare.append(n)
+        elif ev == "define":
+            n, s = self.fresh.pop(0), self.sym("q")
+            base = self.spare[0]
+            q = ctx.quantity(s, Unit(base, registry=reg), reg)
+            mods["UO"].define_unit(n, q, registry=None if self.config == "default" else reg)
+            self.expect[n] = s * self.expect.get(base, self.scale_of.get(base))
+            self.spare.append(n)
+        elif ev == "modify":
+            n, s = self.spare[0], self.sym("m")
+            reg.modify(n, s)
+            self.expect[n] = s
+        elif ev == "modify-same":
+            n = self.spare[0]
+            reg.modify(n, self.expect.get(n, self.scale_of.get(n)))
+        elif ev == "modify-quantity":
+            n, s = self.spare[0], self.sym("m")
+            reg.modify(n, ctx.quantity(s, Unit("kg", registry=reg), reg))
+            self.expect[n] = s
+        elif ev == "remove":
+            n = self.spare.pop(0)
+            reg.remove(n)
+            self.expect[n] = None
+        elif ev == "remove-readd":
+            n = self.spare[0]
+            row = reg.lut[n]
+            reg.remove(n)
+            reg.add(n, row[0], row[1], tex_repr=row[3], offset=row[2], prefixable=row[4])
+        elif ev == "prefixed-lookup":
+            for n in ("Mxa", "nxa", "Mxt", "kxd", "kxq"):
+                call(lambda: Unit(n, registry=reg))
+                call(lambda: n in reg)
+        elif ev == "sibling-copy-edit":
+            import copy
+            other = copy.copy(reg)
+            other.add("xz", self.sym("z"), D.force)
+            if "xd" in other.lut:
+                zs = self.sym("z")
+                call(lambda: other.modify("xd", zs))        # (a copy of the default registry refuses, like the default registry)
+        elif ev == "early-print":
+            for _, u in units:
+                str(u), repr(u), call(lambda: u.latex_repr)
+        else:
+            raise KeyError(ev)
+
+    def took_effect(self):
+        """the edits are real: every edited symbol now reads as the harness' account says (scale for all scales) or is gone"""
+        Unit = self.ctx.mods["unyt"].Unit
+        for n, s in sorted(self.expect.items()):
+            r = call(lambda: Unit(n, registry=self.reg))
+            if s is None:
+                self.ctx.require("history: a removed symbol no longer parses (UnitParseError)", r[0] == "raise" and type(r[1]).__name__ == "UnitParseError", name=n, got=r[1])
+            else:
+                self.ctx.require("history: an added/modified symbol reads with its new scale", r[0] == "ok" and close(r[1].base_value, s), name=n, got=r[1])
+
+
+def _scrub_default(mods):
+    """the default registry is process-global: take the harness' symbols out again (also when a path is abandoned)"""
+    reg = mods["UR"].default_unit_registry
+    dirty = [n for n in list(reg.lut) if n in _HARNESS_SYMBOLS]
+    for n in dirty:
+        del reg.lut[n]
+        if hasattr(mods["unyt"], n):
+            delattr(mods["unyt"], n)
+    if dirty:
+        reg._unit_system_id = None
+    reg._unit_object_cache.clear()
+
+
+_HARNESS_SYMBOLS = set(NAMES) | set(EDIT_NAMES)
+
+
+def reread_after_history(ctx, tag, units, reg, before, want, want_dims):
+    """`units`: [(route, unit)] - equal units built the same way, one object per route. Every printed form (taken before the history and
+    now) is read again, from a cold and from a warm unit-object cache, as text and as utf-8 bytes, and compared with every one of them."""
+    Unit = ctx.mods["unyt"].Unit
+    ref = units[0][1]
+    coef = numeric_coefficient(ref.expr)
+    identical = coef == 1 and not ref.expr == 1
+    for fname, f in (("str", str), ("repr", repr)):
+        s = f(ref)
+        t = f"{tag} {fname}"
+        ctx.require(f"{t}: the unit prints as it did before the history", all(f(u) == before[fname] for _, u in units), printed=s, before=before[fname])
+        for temp in ("cold", "warm"):
+            if temp == "cold":
+                reg._unit_object_cache.clear()
+            r = call(lambda: Unit(before[fname], registry=reg))
+            ctx.require(f"{t}: parses", r[0] == "ok", printed=before[fname], got=r[1], cache=temp)
+            if r[0] != "ok":
+                continue
+            v = r[1]
+            ctx.require(f"{t}: same dimension", dimvec(v.dimensions) == dimvec(ref.dimensions), printed=s, cache=temp)
+            ctx.require(f"{t}: same scale for all scales", close(v.base_value, ref.base_value), printed=s, cache=temp)
+            ctx.require(f"{t}: same offset", close(v.base_offset, ref.base_offset), printed=s, cache=temp)
+            if want is not None:
+                ctx.require(f"{t}: denotes the unit that was written (oracle scale, dimension)", And(close(v.base_value, want), dimvec(v.dimensions) == want_dims), printed=s, cache=temp)
+            for route, u in units:
+                ctx.require(f"{t}: equal unit [{route}]", bool(v == u) and bool(u == v), printed=s, cache=temp)
+                if identical:
+                    ctx.require(f"{t}: identical expression and hash [{route}]", And(v.expr == u.expr, hash(v) == hash(u)), printed=s, cache=temp,
+                                hash_reread=hash(v), hash_unit=hash(u))
+                    ctx.require(f"{t}: the unit and its re-read text are one set element and find each other in a dict [{route}]",
+                                len({u, v}) == 1 and {u: 1}.get(v) == 1 and {v: 1}.get(u) == 1, printed=s, cache=temp)
+            if identical:
+                ctx.require(f"{t}: printing is a fixed point", f(v) == s, printed=s, reprinted=f(v))
+        reg._unit_object_cache.clear()
+        rb = call(lambda: Unit(s.encode("utf-8"), registry=reg))
+        ctx.require(f"{t}: the utf-8 bytes of the text read as the text does",
+                    rb[0] == "ok" and And(rb[1].expr == ref.expr or not identical, bool(rb[1] == ref), close(rb[1].base_value, ref.base_value),
+                                          not identical or hash(rb[1]) == hash(ref)), printed=s, got=rb[1])
+    hs = [hash(u) for _, u in units]
+    ctx.require(f"{tag}: equal units built the same way have one hash now, and it is stable between two calls",
+                len(set(hs)) == 1 and hs == [hash(u) for _, u in units], routes=[r for (r, _), h in zip(units, hs) if h != hs[-1]])
+
+
+def make_hist_case(t, history, config, special=False):
+    N = 2 if special else root_degree(t)
+    names = sorted(atoms_of(t))
+
+    def h(ctx):
+        mods = ctx.mods
+        Unit = mods["unyt"].Unit
+        if config == "default":
+            _scrub_default(mods)
+        try:
+            reg, env, scale_of, dimvec_of = make_env(ctx, N=N, offset_unit=special, extra=[n for n in names if n != "1"],
+                                                     base=mods["UR"].default_unit_registry if config == "default" else None,
+                                                     copied={"copied": True, "deepcopied": "deep"}.get(config, False),
+                                                     spare=True)
+            if special:
+                want = wd = None
+            else:
+                m = mono_expand(t)
+                want, wd = mono_scale(m, scale_of), mono_dimvec(m, dimvec_of)
+            units = []
+            for route in ROUTES:
+                reg._unit_object_cache.clear()              # one object per route (units read from strings are shared through this cache)
+                u = build(t, _Env(Unit, reg), mods, reg)
+                units.append((route, u))
+            if want is not None:
+                ctx.require("built unit has the oracle's scale and dimension", And(close(units[0][1].base_value, want), dimvec(units[0][1].dimensions) == wd))
+            before = {"str": str(units[0][1]), "repr": repr(units[0][1])}
+            if numeric_coefficient(units[0][1].expr) == 1 and not units[0][1].expr == 1:
+                # the same unit obtained from its text instead of arithmetic: it sits in the registry's unit-object cache under that text
+                reg._unit_object_cache.clear()
+                units.append(("hash() of the unit read from its text", Unit(before["str"], registry=reg)))
+            keep = [first_hash(ctx, route, u, reg) for route, u in units]
+            hist = _History(ctx, reg, config, scale_of, set(names), N)
+            for ev in history:
+                hist.run(ev, units)
+            hist.took_effect()
+            reread_after_history(ctx, f"after {'+'.join(history)}:", units, reg, before, want, wd)
+            ctx.observe("printed", before["repr"])
+            ctx.observe("scale", units[0][1].base_value)
+            del keep
+        finally:
+            if config == "default":
+                _scrub_default(mods)
+    return Case(f"C20/hist/{config}/{'+'.join(history)}/{tid(t)}", h, group="hist")
+
+
+def hist_cases(quick):
+    """histories x terms x registry configurations. Every one-step history meets every term in the custom registry; the two- and
+    three-step histories and the other two configurations rotate through the terms (quick) or meet a wider sample (thorough)."""
+    out, seen = [], set()
+
+    def add(t, hist, config, special):
+        key = (t, hist, config)
+        if key not in seen:
+            seen.add(key)
+            out.append(make_hist_case(t, hist, config, special))
+    terms = [(t, False) for t in HIST_TERMS] + [(t, True) for t in HIST_SPECIAL]
+    for hist in H1:
+        for t, sp in terms:
+            add(t, hist, "custom", sp)
+    k = 0
+    per = 2 if quick else 8
+    for hist in H2 + H3:
+        for j in range(per):
+            t, sp = terms[(k * 5 + j * 7) % len(terms)]
+            add(t, hist, "custom", sp)
+        k += 1
+    for config in CONFIGS[1:]:
+        for hist in H1 + H2 + H3:
+            for j in range(1 if quick else 4):
+                t, sp = terms[(k * 5 + j * 7) % len(terms)]
+                add(t, hist, config, sp)
+            k += 1
+    return out
+
+
 def simp_terms(n, seed=23):
     rnd = random.Random(seed)
     out = [Dv(P(A("m"), 2), A("cm")), Dv(A("km"), A("μm")), M(A("%"), A("%")), Dv(A("%"), A("%")), P(A("%"), 2), M(A("xb"), Dv(A("m"), A("cm"))),
@@ -382,7 +710,7 @@ def simp_terms(n, seed=23):
 
 
 def cases(tier, mods):
-    check_names(mods, NAMES)
+    check_names(mods, NAMES + EDIT_NAMES)
     quick = tier == "quick"
     out = []
     atoms, d1, d2, d3 = catalogue(ATOMS, 200 if quick else 1500, 200 if quick else 1500, seed=20)
@@ -416,6 +744,7 @@ def cases(tier, mods):
         out.append(make_special_case(kind, terms))
     for i, (identical, group) in enumerate(SPELL):
         out.append(make_spell_case(i, identical, group))
+    out.extend(hist_cases(quick))
     if not quick:
         from unyt._unit_lookup_table import default_unit_symbol_lut as lut, unit_prefixes
         names = sorted(lut)
